@@ -277,7 +277,7 @@ class Check(PropertyCheck):
             "flights (HTTP heads, TLS/DTLS ClientHellos whole/truncated/invalid, QUIC-looking, raw) ; e2e: mode x "
             "connection_strategy x rules x flight x every single cut of short flights + random multi-cuts x script of later "
             "data/close/connect events. distinct = distinct case; non-trivial = rules set and a destination present.")
-    budget = {"quick": 3600, "thorough": 120000}
+    budget = {"quick": 3600, "thorough": 200000}
     time_budget = {"quick": 18, "thorough": 420}
     fingerprints = ["mitmproxy.addons.next_layer:NextLayer._ignore_connection", "mitmproxy.addons.next_layer:NextLayer._get_host_header",
                     "mitmproxy.addons.next_layer:NextLayer._get_client_hello", "mitmproxy.addons.next_layer:NextLayer._next_layer",
